@@ -4,5 +4,5 @@ package sim
 func OraclesFor(c *Chain) []Oracle {
 	dt := NewDisputeTracker()
 	return []Oracle{NewOracleC03(), NewOracleC04(), NewOracleC05(), NewOracleC06(), NewOracleC07(), NewOracleC08(), NewOracleC09(), NewOracleC10(),
-		NewOracleC11(dt), NewOracleC12(dt), NewOracleC13(dt)}
+		NewOracleC11(dt), NewOracleC12(dt), NewOracleC13(dt), NewOracleC14(), NewOracleC16(), NewOracleC17(), NewOracleC18(), NewOracleC19()}
 }
